@@ -11,19 +11,19 @@ import (
 )
 
 type FuncResult struct {
-	Key        string
-	Name       string
-	Obls       []*Obligation
-	Paths      int
-	Inlined    []string
-	Externs    []string
-	Contracts  []string
-	Regexes    []string
-	Blocking   []blockingOp
-	Spawned    []string
+	Key         string
+	Name        string
+	Obls        []*Obligation
+	Paths       int
+	Inlined     []string
+	Externs     []string
+	Contracts   []string
+	Regexes     []string
+	Blocking    []blockingOp
+	Spawned     []string
 	HasContract bool
-	script     *smtScript
-	LockSites  int
+	script      *smtScript
+	LockSites   int
 }
 
 func (w *World) newExec(fn *ssa.Function, ct *Contract, name string, mode execMode) *Exec {
